@@ -46,33 +46,40 @@ def ncolsOf (probs : Option Probs) : Nat := (probs.map (·.ncols)).getD 0
 def symmetricSpec (n : Nat) (es : List Entry) : Bool :=
   (List.range n).all fun i => (List.range n).all fun j => entryAt es i j = entryAt es j i
 
+/-- number of nodes, and the displayed stored entries (non-zero weight), of a `visualize_graph` call -/
+def specN (a : GraphArgs) : Nat := if a.hasAdj then a.n else a.pos.length
+def specEs (a : GraphArgs) : List Entry := (if a.hasAdj then a.entries else []).filter fun e => e.2.2 ≠ 0
+/-- the graph is drawn with arrows when asked to, by default when its adjacency matrix is not symmetric -/
+def specDirected (a : GraphArgs) : Bool := a.directed.getD (!symmetricSpec (specN a) (specEs a))
+/-- an edge `i → j` is shown unless it is an arrow between two nodes given the same position -/
+def shownSpec (a : GraphArgs) (i j : Nat) : Bool := !specDirected a || a.pos.getD i (0, 0) != a.pos.getD j (0, 0)
+def specOrder (a : GraphArgs) : List Nat := a.nodeOrder.getD (List.range (specN a))
+
 /-- expected content of `visualize_graph` on a non-degenerate canvas (`width` or `height` non-zero, `scale ≠ 0`),
     all stored weights `≥ 0` -/
 def expectedGraph (a : GraphArgs) : Expected :=
-  let n := if a.hasAdj then a.n else a.pos.length
-  let es := (if a.hasAdj then a.entries else []).filter fun e => e.2.2 ≠ 0
-  let directed := a.directed.getD (!symmetricSpec n es)
-  let order := a.nodeOrder.getD (List.range n)
-  let shown := fun (i j : Nat) => !directed || a.pos.getD i (0, 0) != a.pos.getD j (0, 0)
-  let stored := (es.filter fun e => shown e.1 e.2.1).length
-  let extra := (a.edgeLabels.filter fun l =>
-      entryAt es l.1.toNat l.2.1.toNat = 0 && shown l.1.toNat l.2.1.toNat).length
-  { circles := (order.filter fun i => !isPie a.probs i).length
-    sectors := (order.filter fun i => isPie a.probs i).length * ncolsOf a.probs
-    edgePaths := if a.displayEdges then stored + extra else 0
+  { circles := ((specOrder a).filter fun i => !isPie a.probs i).length
+    sectors := ((specOrder a).filter fun i => isPie a.probs i).length * ncolsOf a.probs
+    edgePaths :=
+      if a.displayEdges then
+        ((specEs a).filter fun e => shownSpec a e.1 e.2.1).length +
+        (a.edgeLabels.filter fun l =>
+          entryAt (specEs a) l.1.toNat l.2.1.toNat = 0 && shownSpec a l.1.toNat l.2.1.toNat).length
+      else 0
     texts := match a.names with
       | none => []
-      | some names => (List.range n).map fun i => plainOf (names.getD i []) }
+      | some names => (List.range (specN a)).map fun i => plainOf (names.getD i []) }
 
 /-- expected content of `visualize_bigraph`, all stored weights `≥ 0` -/
 def expectedBigraph (a : BigraphArgs) : Expected :=
   let rows := List.range a.nRow
   let cols := List.range a.nCol
-  let extra := (a.edgeLabels.filter fun l => entryAt a.entries l.1.toNat l.2.1.toNat = 0).length
+  let es := a.entries.filter fun e => e.2.2 ≠ 0
+  let extra := (a.edgeLabels.filter fun l => entryAt es l.1.toNat l.2.1.toNat = 0).length
   { circles := (rows.filter fun i => !isPie a.probsRow i).length + (cols.filter fun i => !isPie a.probsCol i).length
     sectors := (rows.filter fun i => isPie a.probsRow i).length * ncolsOf a.probsRow +
                (cols.filter fun i => isPie a.probsCol i).length * ncolsOf a.probsCol
-    edgePaths := if a.displayEdges then (a.entries.filter fun e => e.2.2 ≠ 0).length + extra else 0
+    edgePaths := if a.displayEdges then es.length + extra else 0
     texts := (match a.namesRow with
         | none => []
         | some names => rows.map fun i => plainOf (names.getD i [])) ++
@@ -204,7 +211,7 @@ def geomBigraph (a : BigraphArgs) (ps : List Piece) : Bool :=
     let centre := fun i => circles[i]?
     let es := a.entries.filter fun e => e.2.2 ≠ 0
     let expected := (es.map fun e => (e.1, a.nRow + e.2.1)) ++
-      ((a.edgeLabels.filter fun l => entryAt a.entries l.1.toNat l.2.1.toNat = 0).map
+      ((a.edgeLabels.filter fun l => entryAt es l.1.toNat l.2.1.toNat = 0).map
         fun l => (l.1.toNat, a.nRow + l.2.1.toNat))
     matchEdges false centre expected (strokePathsOf ps)
 
